@@ -306,7 +306,7 @@ fn gen_history(rng: &mut Rng, lib: &Library, cfg: &Cfg, len: usize, push_heavy: 
             s.dedup();
             Op::EvictSettled(s)
         } else if r < push_w + 30 {
-            Op::EvictOlderThan(*rng.pick(&[0, 1, SEC, w - 1, w, w + 1, 2 * w, 3 * SEC, 3 * SEC - 1, 3 * SEC + 1]))
+            Op::EvictOlderThan(*rng.pick(&[0, 1, SEC, w - 1, w, w + 1, 2 * w, 3 * SEC, 3 * SEC - 1, 3 * SEC + 1, u64::MAX, u64::MAX - 1, u64::MAX - 2, u64::MAX - 3, u64::MAX - 4]))
         } else if r < push_w + 38 {
             Op::Snapshot(if rng.chance(2, 3) { hot_key } else { rng.usize(lib.keys.len() + 1) })
         } else if r < push_w + 44 {
@@ -472,6 +472,19 @@ pub struct Feats {
 
 fn dur(ns: u64) -> Duration {
     Duration::from_nanos(ns)
+}
+
+/// Expiry ages: nanoseconds, except the top sentinel values which stand for the "never expire" idioms
+/// (ages no clock can represent as `now - age`); in the model nothing is ever that old.
+fn age_dur(ns: u64) -> Duration {
+    match ns {
+        u64::MAX => Duration::MAX,
+        x if x == u64::MAX - 1 => Duration::from_secs(u64::MAX),
+        x if x == u64::MAX - 2 => Duration::from_secs(i64::MAX as u64 + 1),
+        x if x == u64::MAX - 3 => Duration::from_secs(i64::MAX as u64),
+        x if x == u64::MAX - 4 => Duration::from_secs(1 << 40),
+        _ => Duration::from_nanos(ns),
+    }
 }
 
 fn bkey(k: &KeyT) -> BatchKey {
@@ -757,7 +770,7 @@ pub fn execute(lib: &Library, cfg: &Cfg, ops: &[Op]) -> Outcome {
                 if want > 0 {
                     feats.evictions += 1;
                 }
-                match catch(|| pool.evict_older_than(dur(*d))) {
+                match catch(|| pool.evict_older_than(age_dur(*d))) {
                     Err(p) => viol.push(("C21:evict_older_than-panic".into(), at(&p))),
                     Ok(got) if got != want => viol.push(("C21:evict_older_than-count".into(), at(&format!("evict_older_than reported {}, {} pooled proofs are older than the cutoff", got, want)))),
                     _ => {}
